@@ -1,18 +1,15 @@
-(** The mask tables in the property's own words: which bits of a 64-bit word each entry has.
-    ([Mask j = 2^j - 1] ... are the closed forms of [Lib/Bits.v] used by every other model.) *)
+(** What the tables of bitmap/mask.go must contain, in closed form: the
+    definitions of Lib/Bits.v that every other model of the package uses. *)
 From Coq Require Import ZArith List Bool.
 From Low Require Import Lib.Bits.
+Import ListNotations.
 Open Scope Z_scope.
 
-(** bit [t] (0 <= t) of each table entry *)
-Definition bit_Mask (j t : Z) : bool := t <? j.                        (* the low j bits *)
-Definition bit_RMask (j t : Z) : bool := (j <=? t) && (t <? 64).       (* all but the low j bits *)
-Definition bit_MaskUpto (j t : Z) : bool := t <=? j.                   (* bits 0..j *)
-Definition bit_RMaskUpto (j t : Z) : bool := (j <? t) && (t <? 64).    (* bits above j *)
-Definition bit_Bit (j t : Z) : bool := t =? j.                         (* bit j only *)
-Definition bit_RBit (j t : Z) : bool := negb (t =? j) && (t <? 64).    (* all but bit j *)
+Definition in_tab (n j : Z) (v : Z) : option Z := if (0 <=? j) && (j <? n) then Some v else None.
 
-Definition spec_mask_at (i : Z) : option (Z * Z) :=
-  if (0 <=? i) && (i <=? 64) then Some (Mask i, RMask i) else None.
-Definition spec_bit_at (i : Z) : option (Z * Z * Z * Z) :=
-  if (0 <=? i) && (i <? 64) then Some (MaskUpto i, RMaskUpto i, Bit i, RBit i) else None.
+(** [Mask[j]] = j low 1-bits, [RMask[j]] = its complement in 64 bits (j <= 64);
+    [MaskUpto[j]] = bits 0..j, [Bit[j]] = bit j alone, and their complements (j < 64) *)
+Definition spec_mask_lookups (j : Z) : list (option Z) :=
+  [in_tab 65 j (Mask j); in_tab 65 j (RMask j);
+   in_tab 64 j (MaskUpto j); in_tab 64 j (RMaskUpto j);
+   in_tab 64 j (Bit j); in_tab 64 j (RBit j)].
